@@ -197,6 +197,29 @@ def bounded(pb, interp, rng, tier):
                 fail("where.signal-mask", "np.add(sig, 100, out=sig, where=sig > 3)", "wrong values / not the out signal")
         except (Exception, RecursionError) as e:
             fail("where.signal-mask", "np.add(sig, 100, out=sig, where=sig > 3)", type(e).__name__)
+    # Quantity subclasses as the other operand, in either order: astropy's Angle and pulsarbat's own Phase
+    # ("mixed with ... Quantities in any operand order ... wrapped in the type and metadata of the first signal operand")
+    from astropy.coordinates import Angle
+    from pulsarbat.pulsar.phase import Phase
+    sig = pb.Signal(np.arange(8.).reshape(4, 2) + 1, sample_rate=1 * u.Hz, meta={"who": "sig"})
+    for qname, q in (("Angle", Angle(0.25, u.cycle)), ("Phase", Phase(3.0, 0.25))):
+        for oname, fn, rf in ((f"{qname} * sig", lambda: q * sig, lambda: q * sig.data), (f"sig * {qname}", lambda: sig * q, lambda: sig.data * q),
+                              (f"np.multiply({qname}, sig)", lambda: np.multiply(q, sig), lambda: np.multiply(q, sig.data))):
+            ev += 1
+            distinct.add(("quantity-subclass", oname))
+            try:
+                ref = rf()
+            except Exception:
+                continue
+            try:
+                r = fn()
+            except Exception as e:
+                fail("quantity-subclass-operand.raises", oname, repr(e)[:150])
+                continue
+            if type(r) is not pb.Signal or _meta(r) != _meta(sig):
+                fail("quantity-subclass-operand.not-wrapped", oname, f"{type(r).__name__} returned, a Signal with the metadata of the signal operand expected")
+            elif type(r.data) is not type(ref) or not bool(np.all(r.data == ref)):
+                fail("quantity-subclass-operand.values", oname, f"data {type(r.data).__name__} differs from the operation on the underlying array ({type(ref).__name__})")
     for be in ("numpy", "dask"):
         sigs = _signals(pb, rng, be)
         for s in sigs:
